@@ -415,6 +415,18 @@ impl LineBuilder {
             *prev_content += content;
             return;
         }
+        // A comment that starts on its own line must stay on its own line: otherwise it is glued to
+        // the token before it (`foo(a// c`, or even `x /` + `// c` -> `x /// c`), and formatting the
+        // result again treats it as a trailing comment. Make the break line point right before it
+        // mandatory, or add one if there is none.
+        if !is_trailing && !self.force_break_before_next_component() {
+            self.push_break_line_point(BreakLinePointProperties::new(
+                usize::MAX,
+                BreakLinePointIndentation::NotIndented,
+                false,
+                false,
+            ));
+        }
         self.push_child(LineComponent::Comment { content: content.to_string(), is_trailing });
         self.push_break_line_point(BreakLinePointProperties::new(
             // Should be greater than any other precedence.
@@ -423,6 +435,42 @@ impl LineBuilder {
             false,
             false,
         ));
+    }
+    /// Makes the break line points that directly precede the next component to be pushed
+    /// mandatory. Returns false if there are none, i.e. if the next component would directly follow
+    /// a token or a comment. A pending space (pushed for a comment in an otherwise empty block,
+    /// `{ // comment`) counts as a deliberate separation.
+    fn force_break_before_next_component(&mut self) -> bool {
+        /// None - the builder is empty; Some(found) - whether its last component is a break.
+        fn visit(builder: &mut LineBuilder) -> Option<bool> {
+            if !builder.pending_break_line_points.is_empty() {
+                for component in builder.pending_break_line_points.iter_mut() {
+                    if let LineComponent::BreakLinePoint(properties) = component {
+                        properties.is_optional = false;
+                    }
+                }
+                return Some(true);
+            }
+            for child in builder.children.iter_mut().rev() {
+                match child {
+                    LineComponent::ProtectedZone { builder, .. } => {
+                        if let Some(found) = visit(builder) {
+                            return Some(found);
+                        }
+                    }
+                    LineComponent::BreakLinePoint(properties) => {
+                        properties.is_optional = false;
+                        return Some(true);
+                    }
+                    LineComponent::Space => return Some(true),
+                    LineComponent::Indent(_) => {}
+                    LineComponent::Token(_) | LineComponent::Comment { .. } => return Some(false),
+                }
+            }
+            None
+        }
+        // At the very beginning there is nothing to separate the comment from.
+        visit(self).unwrap_or(true)
     }
     /// Appends all the pending break line points to the builder. Should be called whenever a
     /// component of another type (i.e. not a break line point) is appended.
